@@ -8,7 +8,8 @@ GENERATED — do not edit.  Regenerated on every `./check C24` run (cfg/C24.json
   trustfall_core/src/ir/types/named_typed.rs
   trustfall_core/src/schema/mod.rs
   trustfall_core/src/interpreter/mod.rs
-Every struct / enum / type alias of these files as field type expressions, sorted by name.
+Every struct / enum / type alias of these files as field type expressions, sorted by name;
+plus every `static` / `thread_local!` of the whole crate (trustfall_core/src, outside cfg(test)).
 -/
 import TrustfallModel.Model.AutoTraits
 
@@ -393,5 +394,27 @@ def typeDefs : Defs := [
   def_VertexIterator,
   def_Vid
 ]
+
+/-- Every `static` item / `thread_local!` block of trustfall_core/src compiled outside `#[cfg(test)]`
+(module tree walked from lib.rs, function bodies included), sorted by file and name. -/
+def statics : List StaticDef := [
+  { name := "NON_NULL_INT_TYPE", kind := "static", mutable := false, src := "ir/mod.rs",
+    ty := .path "OnceLock" [.path "Type" []] },
+  { name := "TYPENAME_META_FIELD_ARC", kind := "static", mutable := false, src := "ir/mod.rs",
+    ty := .path "OnceLock" [.path "Arc" [.path "str" []]] },
+  { name := "BOOLEAN_TYPE_NAME", kind := "static", mutable := false, src := "ir/types/base.rs",
+    ty := .ref false (.path "str" []) },
+  { name := "FLOAT_TYPE_NAME", kind := "static", mutable := false, src := "ir/types/base.rs",
+    ty := .ref false (.path "str" []) },
+  { name := "INT_TYPE_NAME", kind := "static", mutable := false, src := "ir/types/base.rs",
+    ty := .ref false (.path "str" []) },
+  { name := "INT_TYPE_NAME_ARC", kind := "static", mutable := false, src := "ir/types/base.rs",
+    ty := .path "OnceLock" [.path "Arc" [.path "str" []]] },
+  { name := "STRING_TYPE_NAME", kind := "static", mutable := false, src := "ir/types/base.rs",
+    ty := .ref false (.path "str" []) },
+  { name := "STRING_TYPE_NAME_ARC", kind := "static", mutable := false, src := "ir/types/base.rs",
+    ty := .path "OnceLock" [.path "Arc" [.path "str" []]] },
+  { name := "BUILTIN_SCALARS", kind := "static", mutable := false, src := "schema/mod.rs",
+    ty := .path "OnceLock" [.path "HashSet" [.ref false (.path "str" [])]] }]
 
 end TF.Generated
